@@ -94,12 +94,15 @@ pub fn pass_live(rec: &SessionRec) -> Vec<Finding> {
         if let Some(&j) = last_call.get(task) {
           if let Ev::ReadCall { kind, res: r2, .. } = &evs[j] {
             let mid = between(evs, j, i);
-            let ok = r2 == res && mid.len() == 2
-              && matches!(mid[0], Ev::ResRead { res: r, reader } if r == res && reader == k)
-              && matches!(mid[1], Ev::StampReader { owner, kind: k2, res: r, reader, gets_before: 0, stamp: Some(_) } if owner == task && k2 == kind && r == res && reader == k);
+            // The property: the stamp comes from the very reader handed to the task, before the task reads. Demanded:
+            // the reader handed over (k) was produced by Resource::read in this window, the LAST stamp call of this
+            // owner in the window is stamp_reader on reader k while it was unread. (Further calls are not forbidden.)
+            let opened = mid.iter().any(|e| matches!(e, Ev::ResRead { res: r, reader } if r == res && reader == k));
+            let last_stamp = mid.iter().rev().find(|e| matches!(e, Ev::StampReader { owner, .. } | Ev::Stamp { owner, .. } | Ev::StampWriter { owner, .. } if owner == task));
+            let ok = r2 == res && opened && matches!(last_stamp, Some(Ev::StampReader { owner, kind: k2, res: r, reader, gets_before: 0, stamp: Some(_) }) if owner == task && k2 == kind && r == res && reader == k);
             if !ok {
-              out.push(f("C09", "read-pattern", i, format!("read of R{} by T{}: expected Resource::read -> stamp_reader(on that reader, unread) -> return, saw {:?}", res, task, mid)));
-            } else if let Ev::StampReader { stamp: Some(s), .. } = mid[1] {
+              out.push(f("C09", "read-pattern", i, format!("read of R{} by T{}: the stamp must be taken by stamp_reader on the very reader handed to the task (#{}), before the task reads; saw {:?}", res, task, k, mid)));
+            } else if let Some(Ev::StampReader { stamp: Some(s), .. }) = last_stamp {
               match next_nt(evs, i).map(|n| &evs[n]) {
                 Some(Ev::ReaderGet { reader, val, .. }) if reader == k => {
                   if kind.abs(*val) != *s { out.push(f("C09", "read-stamp-mismatch", i, format!("T{} read {:?} from R{} but the stamp taken from its reader was {}", task, val, res, s))); }
@@ -116,21 +119,24 @@ pub fn pass_live(rec: &SessionRec) -> Vec<Finding> {
           if let Ev::WriteCall { kind, via, res: r2, .. } = &evs[j] {
             if *via == Via::Declared { legality_of_write(&sh, *task, *res, i, &mut out); }
             let mid = between(evs, j, i);
-            let ok = r2 == res && match via {
-              Via::Ctx => mid.len() == 5
-                && matches!((mid[0], mid[1]), (Ev::ResWrite { res: r, writer: Some(w) }, Ev::WriteFnEnter { task: t, res: r3, writer: w2 }) if r == res && r3 == res && t == task && w == w2)
-                && matches!((mid[2], mid[3]), (Ev::WriterSet { res: r, .. }, Ev::WriteFnLeave { ok: true, .. }) if r == res)
-                && match (mid[0], mid[2], mid[4]) {
-                  (Ev::ResWrite { writer: Some(w), .. }, Ev::WriterSet { writer: w1, val, .. }, Ev::StampWriter { owner, kind: k2, res: r, writer: w2, now, stamp: Some(s) }) =>
-                    w == w1 && w == w2 && owner == task && k2 == kind && r == res && now == val && *s == kind.abs(*val),
-                  _ => false,
-                },
-              Via::Declared => mid.len() == 4
-                && matches!((mid[0], mid[1]), (Ev::ResWrite { res: r, writer: Some(w) }, Ev::CreateWriterRet { writer: Some(w2), .. }) if r == res && w == w2)
-                && match (mid[2], mid[3]) {
-                  (Ev::WriterSet { val, .. }, Ev::Stamp { owner, kind: k2, res: r, now, stamp: Some(s) }) => owner == task && k2 == kind && r == res && now == val && *s == kind.abs(*val),
-                  _ => false,
-                },
+            // The property: the stamp is taken after the task's write function has finished (Context::write), from
+            // the writer the task used; for written_to at call time. Demanded: the last stamp call of this owner in the
+            // window comes after the last WriterSet / WriteFnLeave, sees the value just written, and (Context::write) is
+            // stamp_writer on the writer that was handed to the write function.
+            let last_set = mid.iter().rposition(|e| matches!(e, Ev::WriterSet { res: r, .. } if r == res));
+            let last_stamp = mid.iter().rposition(|e| matches!(e, Ev::StampReader { owner, .. } | Ev::Stamp { owner, .. } | Ev::StampWriter { owner, .. } if owner == task));
+            let written = last_set.map(|p| if let Ev::WriterSet { val, writer, .. } = mid[p] { (*val, *writer) } else { (None, 0) });
+            let ok = r2 == res && match (via, last_set, last_stamp, written) {
+              (Via::Ctx, Some(ps), Some(pt), Some((val, w))) => {
+                let leave = mid.iter().rposition(|e| matches!(e, Ev::WriteFnLeave { ok: true, .. }));
+                ps < pt && leave.map_or(false, |pl| pl < pt)
+                  && mid.iter().any(|e| matches!(e, Ev::WriteFnEnter { task: t, res: r3, writer: w2 } if t == task && r3 == res && *w2 == w))
+                  && matches!(mid[pt], Ev::StampWriter { owner, kind: k2, res: r, writer: w2, now, stamp: Some(s) } if owner == task && k2 == kind && r == res && *w2 == w && *now == val && *s == kind.abs(val))
+              }
+              (Via::Declared, Some(ps), Some(pt), Some((val, _))) => {
+                ps < pt && matches!(mid[pt], Ev::Stamp { owner, kind: k2, res: r, now, stamp: Some(s) } if owner == task && k2 == kind && r == res && *now == val && *s == kind.abs(val))
+              }
+              _ => false,
             };
             if !ok {
               out.push(f("C09", "write-pattern", i, format!("write of R{} by T{} via {:?}: expected Resource::write -> write function -> stamp of the written value -> return, saw {:?}", res, task, via, mid)));
@@ -545,11 +551,11 @@ pub fn pass_bottom_up(rec: &SessionRec, stats: &mut BuStats) -> Vec<Finding> {
     let ev = &evs[i];
     match ev {
       Ev::Check { owner, verdict, .. } => {
-        if *verdict != Verdict::Consistent { scheduled.insert(*owner); justified.insert(*owner); expect_schedule_task(evs, i, *owner, &mut out); }
+        if *verdict != Verdict::Consistent { if !scheduled.contains(owner) { expect_schedule_task(evs, i, *owner, &mut out); } scheduled.insert(*owner); justified.insert(*owner); }
         if matches!(verdict, Verdict::Err(_)) && executed.get(owner).is_none() { failed_check_owners.insert(*owner, i); }
       }
       Ev::OCheck { owner, consistent, .. } => {
-        if !*consistent { scheduled.insert(*owner); justified.insert(*owner); expect_schedule_task(evs, i, *owner, &mut out); } else { stats.cutoffs += 1; }
+        if !*consistent { if !scheduled.contains(owner) { expect_schedule_task(evs, i, *owner, &mut out); } scheduled.insert(*owner); justified.insert(*owner); } else { stats.cutoffs += 1; }
       }
       Ev::Trk(t) if t.m == TM::ScheduleTask => {
         // must be explained by the verdict just before it
